@@ -53,3 +53,25 @@ let () =
             | None -> obs "cliflagxff err"
             | Some b -> obs "cliflagxff ok %08Lx" (u64_of_z b))
     | _ -> failwith "cliflagxff")
+
+(* net/url (C12): QueryEscape / QueryUnescape / ParseQuery *)
+let () =
+  register "qesc" (fun tk -> match tk with
+    | [_; s] -> obs "qesc %s" (hex_of_str (q_escape (str_of_hex s)))
+    | _ -> failwith "qesc");
+  register "qunesc" (fun tk -> match tk with
+    | [_; s] -> (match q_unescape (str_of_hex s) with None -> obs "qunesc err" | Some v -> obs "qunesc ok %s" (hex_of_str v))
+    | _ -> failwith "qunesc");
+  register "qparse" (fun tk -> match tk with
+    | [_; s] -> (match parse_query (str_of_hex s) with
+        | None -> obs "qparse err"
+        | Some kvs ->
+          (* Values is a map: group by key, keys sorted bytewise, values in order of appearance *)
+          let key_str k = String.concat "" (List.map (fun c -> String.make 1 (Char.chr (int_of_z c land 255))) k) in
+          let keys = List.sort_uniq compare (List.map (fun (k, _) -> key_str k) kvs) in
+          let parts = List.map (fun ks ->
+              let vs = List.filter_map (fun (k, v) -> if key_str k = ks then Some (hex_of_str v) else None) kvs in
+              let khex = hex_of_str (List.map (fun ch -> z_of_int (Char.code ch)) (List.init (String.length ks) (String.get ks))) in
+              khex ^ "=" ^ String.concat "," vs) keys in
+          obs "qparse ok %s" (if parts = [] then "-" else String.concat ";" parts))
+    | _ -> failwith "qparse")
